@@ -841,6 +841,14 @@ func main() {
 
 		must(json.Unmarshal(b, &rp))
 
+		if rp.Case == nil {
+			// a bare case (corpus file)
+			var c Case
+			if json.Unmarshal(b, &c) == nil && c.Proto != "" {
+				rp.Case = &c
+			}
+		}
+
 		if rp.Case != nil {
 			runCase(tr, "replay", rp.Case, true)
 		}
